@@ -1,10 +1,15 @@
 /-
   Line drivers for the sequence containers (C09: module `seq`, C10: module `vector`).
   Same protocol and output format as harness/seq.c and harness/vector.c.
+
+  `fault k` / `faultfrom k` arm an allocation plan for the next WINDOWED call (every call whose
+  result starts with `allocs=<n> `: the number of allocation attempts of the `…F` form);
+  `live=<n>` in the private part is the ledger (`blocks`); `end` releases the container.
 -/
 import Driver.Common
 import QlibcModel.Seq.ListModel
 import QlibcModel.Seq.VectorModel
+import QlibcModel.Seq.Fault
 open Qlibc Qlibc.Seq
 
 namespace Driver.Seq
@@ -33,8 +38,9 @@ def obsList (l : QList) : String :=
     | some d => hx d
     | none => "null") ++ "]"
 
-def dumpPrivate (l : QList) : String :=
-  s!" | num={l.num} max={l.max} sum={l.datasum} {hexList (l.elems.map (·.data))} back=ok"
+/-- `extra` = 1 for the wrappers (their own handle) -/
+def dumpPrivate (ts : Bool) (extra : Nat) (l : QList) : String :=
+  s!" | live={l.blocks ts + extra} num={l.num} max={l.max} sum={l.datasum} {hexList (l.elems.map (·.data))} back=ok"
 
 inductive St where
   | none
@@ -43,235 +49,238 @@ inductive St where
   | stack (s : QStack)
   | grow (g : QGrow)
 
-def dump : St → String
+def dump (ts : Bool) : St → String
   | .none => ""
-  | .list l _ => s!" sz={l.size} dsz={l.datasize} obs={obsList l}" ++ dumpPrivate l
-  | .queue q => s!" sz={q.size} obs={obsList q.list}" ++ dumpPrivate q.list
-  | .stack q => s!" sz={q.size} obs={obsList q.list}" ++ dumpPrivate q.list
+  | .list l _ => s!" sz={l.size} dsz={l.datasize} obs={obsList l}" ++ dumpPrivate ts 0 l
+  | .queue q => s!" sz={q.size} obs={obsList q.list}" ++ dumpPrivate ts 1 q.list
+  | .stack q => s!" sz={q.size} obs={obsList q.list}" ++ dumpPrivate ts 1 q.list
   | .grow g =>
     let arr := match g.toArray with
       | .ok ((some d, _), n) => s!"{hx d}/{n}"
       | .ok ((none, _), n) => s!"null/{n}"
       | .error f => faultStr f
-    s!" sz={g.size} dsz={g.datasize} arr={arr}" ++ dumpPrivate g.list
+    s!" sz={g.size} dsz={g.datasize} arr={arr}" ++ dumpPrivate ts 1 g.list
 
 def optBytes (w : String) : Option Bytes := Hex.decode w
 
-def stepList (l : QList) (c : QList.Cursor) (ws : List String) : Option (St × String) :=
+def planOf (a : Option (Nat × Bool)) : Plan :=
+  match a with
+  | none => noFail
+  | some (k, from_) => fun i => k != 0 && (i == k || (from_ && i > k))
+
+def al (n : Nat) : String := s!"allocs={n} "
+
+/-- toarray: `*size` keeps the harness' 7777 when the call did not write it -/
+def showArr (r : DataRes × Option Nat) : String :=
+  s!"{showData r.1} size={r.2.getD 7777}"
+
+def showInt (r : Int × Errno) : String :=
+  s!"int {r.1}" ++ (if r.2 = .ENOMEM then " ENOMEM" else "")
+
+def flag (w : String) : Bool := w != "0"
+
+def stepList (plan : Plan) (l : QList) (c : QList.Cursor) (ws : List String) : Option (St × String) :=
   let same (out : String) := some (St.list l c, out)
+  let boolF (r : (BoolRes × QList) × Nat) : Option (St × String) := some (.list r.1.2 c, al r.2 ++ showBool r.1.1)
+  let dataF (r : (DataRes × QList) × Nat) : Option (St × String) := some (.list r.1.2 c, al r.2 ++ showData r.1.1)
   match ws with
   | ["setsize", m] => do
     let m ← nat? m
     let (old, l') := l.setSize m
     pure (.list l' c, s!"old {old}")
-  | ["addfirst", h] => do
-    let d ← optBytes h
-    let (r, l') := l.addFirst (some d)
-    pure (.list l' c, showBool r)
-  | ["addlast", h] => do
-    let d ← optBytes h
-    let (r, l') := l.addLast (some d)
-    pure (.list l' c, showBool r)
-  | ["addat", i, h] => do
+  | ["addfirst", h] => do let d ← optBytes h; boolF (l.addFirstF plan (some d))
+  | ["addlast", h] => do let d ← optBytes h; boolF (l.addLastF plan (some d))
+  | ["addat", i, h] => do let i ← int? i; let d ← optBytes h; boolF (l.addAtF plan i (some d))
+  | ["addnull", i] => do let i ← int? i; boolF (l.addAtF plan i none)
+  | ["getfirst", nm] => let r := l.getAtF plan 0 (flag nm); same (al r.2 ++ showData r.1)
+  | ["getlast", nm] => let r := l.getAtF plan (-1) (flag nm); same (al r.2 ++ showData r.1)
+  | ["getat", i, nm] => do
     let i ← int? i
-    let d ← optBytes h
-    let (r, l') := l.addAt i (some d)
-    pure (.list l' c, showBool r)
-  | ["addnull", i] => do
-    let i ← int? i
-    let (r, l') := l.addAt i none
-    pure (.list l' c, showBool r)
-  | ["getfirst", _] => same (showData l.getFirst)
-  | ["getlast", _] => same (showData l.getLast)
-  | ["getat", i, _] => do
-    let i ← int? i
-    same (showData (l.getAt i))
-  | ["popfirst"] => let (r, l') := l.popFirst; some (.list l' c, showData r)
-  | ["poplast"] => let (r, l') := l.popLast; some (.list l' c, showData r)
-  | ["popat", i] => do
-    let i ← int? i
-    let (r, l') := l.popAt i
-    pure (.list l' c, showData r)
-  | ["removefirst"] => let (r, l') := l.removeFirst; some (.list l' c, showBool r)
-  | ["removelast"] => let (r, l') := l.removeLast; some (.list l' c, showBool r)
+    let r := l.getAtF plan i (flag nm)
+    same (al r.2 ++ showData r.1)
+  | ["popfirst"] => dataF (l.popAtF plan 0)
+  | ["poplast"] => dataF (l.popAtF plan (-1))
+  | ["popat", i] => do let i ← int? i; dataF (l.popAtF plan i)
+  | ["removefirst"] => let (r, l') := l.removeFirst; some (.list l' c, al 0 ++ showBool r)
+  | ["removelast"] => let (r, l') := l.removeLast; some (.list l' c, al 0 ++ showBool r)
   | ["removeat", i] => do
     let i ← int? i
     let (r, l') := l.removeAt i
-    pure (.list l' c, showBool r)
+    pure (.list l' c, al 0 ++ showBool r)
   | ["size"] => same s!"n {l.size}"
   | ["datasize"] => same s!"n {l.datasize}"
-  | ["reverse"] => some (.list l.reverse c, "ok")
-  | ["clear"] => some (.list l.clear c, "ok")
+  | ["reverse"] => some (.list l.reverse c, al 0 ++ "ok")
+  | ["clear"] => some (.list l.clear c, al 0 ++ "ok")
   | ["toarray"] =>
-    match l.toArray with
-    | .ok (r, n) => same s!"{showData r} size={n}"
+    match l.toArrayF plan with
+    | .ok (r, n) => same (al n ++ showArr r)
     | .error f => same (faultStr f)
   | ["tostring"] =>
-    match l.toStringBuf with
-    | .ok r => same (showStr r)
+    match l.toStringF plan with
+    | .ok (r, n) => same (al n ++ showStr r)
     | .error f => same (faultStr f)
   | ["walk", _] =>
     match l.walk with
     | .ok ds => same ("walk" ++ String.join (ds.map fun d => " " ++ hx d) ++ " end ENOENT")
     | .error f => same (faultStr f)
   | ["reset"] => some (.list l {}, "ok")
-  | ["next", _] =>
-    match l.getNext c with
-    | .ok (r, c') => some (.list l c', if r.1 then s!"data {hx c'.data}" else s!"false {r.2.name}")
+  | ["next", nm] =>
+    match l.getNextF plan c (flag nm) with
+    | .ok ((r, c'), n) => some (.list l c', al n ++ (if r.1 then s!"data {hx c'.data}" else s!"false {r.2.name}"))
     | .error f => same (faultStr f)
   | _ => none
 
-/-- queue and stack share the protocol; `q` selects the queue -/
-def stepQueue (q : QQueue) (ws : List String) : Option (St × String) :=
+def stepQueue (plan : Plan) (q : QQueue) (ws : List String) : Option (St × String) :=
   let same (out : String) := some (St.queue q, out)
+  let boolF (r : (BoolRes × QQueue) × Nat) : Option (St × String) := some (.queue r.1.2, al r.2 ++ showBool r.1.1)
+  let dataF (r : (DataRes × QQueue) × Nat) : Option (St × String) := some (.queue r.1.2, al r.2 ++ showData r.1.1)
   match ws with
   | ["setsize", m] => do
     let m ← nat? m
     let (old, q') := q.setSize m
     pure (.queue q', s!"old {old}")
-  | ["push", h] => do
-    let d ← optBytes h
-    let (r, q') := q.push (some d)
-    pure (.queue q', showBool r)
-  | ["pushstr", "null"] => let (r, q') := q.pushStr none; some (.queue q', showBool r)
-  | ["pushstr", h] => do
-    let d ← optBytes h
-    let (r, q') := q.pushStr (some (cstr d))
-    pure (.queue q', showBool r)
-  | ["pushint", v] => do
-    let v ← int? v
-    let (r, q') := q.pushInt v
-    pure (.queue q', showBool r)
-  | ["pop"] => let (r, q') := q.pop; some (.queue q', showData r)
+  | ["push", h] => do let d ← optBytes h; boolF (q.pushF plan (some d))
+  | ["pushstr", "null"] => boolF (q.pushStrF plan none)
+  | ["pushstr", h] => do let d ← optBytes h; boolF (q.pushStrF plan (some (cstr d)))
+  | ["pushint", v] => do let v ← int? v; boolF (q.pushIntF plan v)
+  | ["pop"] => dataF (q.popF plan)
   | ["popstr"] =>
-    match q.popStr with
-    | .ok (r, q') => some (.queue q', showStr r)
+    match q.popStrF plan with
+    | .ok ((r, q'), n) => some (.queue q', al n ++ showStr r)
     | .error f => same (faultStr f)
   | ["popint"] =>
-    match q.popInt with
-    | .ok (v, q') => some (.queue q', s!"int {v}")
+    match q.popIntF plan with
+    | .ok ((v, q'), n) => some (.queue q', al n ++ showInt v)
     | .error f => same (faultStr f)
-  | ["popat", i] => do
-    let i ← int? i
-    let (r, q') := q.popAt i
-    pure (.queue q', showData r)
-  | ["get", _] => same (showData q.get)
+  | ["popat", i] => do let i ← int? i; dataF (q.popAtF plan i)
+  | ["get", nm] => let r := q.getF plan (flag nm); same (al r.2 ++ showData r.1)
   | ["getstr"] =>
-    match q.getStr with
-    | .ok r => same (showStr r)
+    match q.getStrF plan with
+    | .ok (r, n) => same (al n ++ showStr r)
     | .error f => same (faultStr f)
   | ["getint"] =>
-    match q.getInt with
-    | .ok v => same s!"int {v}"
+    match q.getIntF plan with
+    | .ok (v, n) => same (al n ++ showInt v)
     | .error f => same (faultStr f)
-  | ["getat", i, _] => do
+  | ["getat", i, nm] => do
     let i ← int? i
-    same (showData (q.getAt i))
+    let r := q.getAtF plan i (flag nm)
+    same (al r.2 ++ showData r.1)
   | ["size"] => same s!"n {q.size}"
-  | ["clear"] => some (.queue q.clear, "ok")
+  | ["clear"] => some (.queue q.clear, al 0 ++ "ok")
   | _ => none
 
-def stepStack (q : QStack) (ws : List String) : Option (St × String) :=
+def stepStack (plan : Plan) (q : QStack) (ws : List String) : Option (St × String) :=
   let same (out : String) := some (St.stack q, out)
+  let boolF (r : (BoolRes × QStack) × Nat) : Option (St × String) := some (.stack r.1.2, al r.2 ++ showBool r.1.1)
+  let dataF (r : (DataRes × QStack) × Nat) : Option (St × String) := some (.stack r.1.2, al r.2 ++ showData r.1.1)
   match ws with
   | ["setsize", m] => do
     let m ← nat? m
     let (old, q') := q.setSize m
     pure (.stack q', s!"old {old}")
-  | ["push", h] => do
-    let d ← optBytes h
-    let (r, q') := q.push (some d)
-    pure (.stack q', showBool r)
-  | ["pushstr", "null"] => let (r, q') := q.pushStr none; some (.stack q', showBool r)
-  | ["pushstr", h] => do
-    let d ← optBytes h
-    let (r, q') := q.pushStr (some (cstr d))
-    pure (.stack q', showBool r)
-  | ["pushint", v] => do
-    let v ← int? v
-    let (r, q') := q.pushInt v
-    pure (.stack q', showBool r)
-  | ["pop"] => let (r, q') := q.pop; some (.stack q', showData r)
+  | ["push", h] => do let d ← optBytes h; boolF (q.pushF plan (some d))
+  | ["pushstr", "null"] => boolF (q.pushStrF plan none)
+  | ["pushstr", h] => do let d ← optBytes h; boolF (q.pushStrF plan (some (cstr d)))
+  | ["pushint", v] => do let v ← int? v; boolF (q.pushIntF plan v)
+  | ["pop"] => dataF (q.popF plan)
   | ["popstr"] =>
-    match q.popStr with
-    | .ok (r, q') => some (.stack q', showStr r)
+    match q.popStrF plan with
+    | .ok ((r, q'), n) => some (.stack q', al n ++ showStr r)
     | .error f => same (faultStr f)
   | ["popint"] =>
-    match q.popInt with
-    | .ok (v, q') => some (.stack q', s!"int {v}")
+    match q.popIntF plan with
+    | .ok ((v, q'), n) => some (.stack q', al n ++ showInt v)
     | .error f => same (faultStr f)
-  | ["popat", i] => do
-    let i ← int? i
-    let (r, q') := q.popAt i
-    pure (.stack q', showData r)
-  | ["get", _] => same (showData q.get)
+  | ["popat", i] => do let i ← int? i; dataF (q.popAtF plan i)
+  | ["get", nm] => let r := q.getF plan (flag nm); same (al r.2 ++ showData r.1)
   | ["getstr"] =>
-    match q.getStr with
-    | .ok r => same (showStr r)
+    match q.getStrF plan with
+    | .ok (r, n) => same (al n ++ showStr r)
     | .error f => same (faultStr f)
   | ["getint"] =>
-    match q.getInt with
-    | .ok v => same s!"int {v}"
+    match q.getIntF plan with
+    | .ok (v, n) => same (al n ++ showInt v)
     | .error f => same (faultStr f)
-  | ["getat", i, _] => do
+  | ["getat", i, nm] => do
     let i ← int? i
-    same (showData (q.getAt i))
+    let r := q.getAtF plan i (flag nm)
+    same (al r.2 ++ showData r.1)
   | ["size"] => same s!"n {q.size}"
-  | ["clear"] => some (.stack q.clear, "ok")
+  | ["clear"] => some (.stack q.clear, al 0 ++ "ok")
   | _ => none
 
 /-- decimal rendering of `%d` -/
 def fmtInt (v : Int) : Bytes := (toString v).toUTF8.toList
 
-def stepGrow (g : QGrow) (ws : List String) : Option (St × String) :=
+def stepGrow (plan : Plan) (g : QGrow) (ws : List String) : Option (St × String) :=
   let same (out : String) := some (St.grow g, out)
+  let boolF (r : (BoolRes × QGrow) × Nat) : Option (St × String) := some (.grow r.1.2, al r.2 ++ showBool r.1.1)
   match ws with
-  | ["add", h] => do
-    let d ← optBytes h
-    let (r, g') := g.add (some d)
-    pure (.grow g', showBool r)
-  | ["addstr", h] => do
-    let d ← optBytes h
-    let (r, g') := g.addStr d
-    pure (.grow g', showBool r)
+  | ["add", h] => do let d ← optBytes h; boolF (g.addF plan (some d))
+  | ["addstr", h] => do let d ← optBytes h; boolF (g.addStrF plan d)
   | ["addstrf", h, v] => do
     -- addstrf(grow, "%s=%d", str, v): the formatted string handed to addstr
     let d ← optBytes h
     let v ← int? v
-    let (r, g') := g.addStr (cstr d ++ [0x3d] ++ fmtInt v)
-    pure (.grow g', showBool r)
+    boolF (g.addStrfF plan (cstr d ++ [0x3d] ++ fmtInt v))
   | ["size"] => same s!"n {g.size}"
   | ["datasize"] => same s!"n {g.datasize}"
   | ["toarray"] =>
-    match g.toArray with
-    | .ok (r, n) => same s!"{showData r} size={n}"
+    match g.toArrayF plan with
+    | .ok (r, n) => same (al n ++ showArr r)
     | .error f => same (faultStr f)
   | ["tostring"] =>
-    match g.toStringBuf with
-    | .ok r => same (showStr r)
+    match g.toStringF plan with
+    | .ok (r, n) => same (al n ++ showStr r)
     | .error f => same (faultStr f)
-  | ["clear"] => some (.grow g.clear, "ok")
+  | ["clear"] => some (.grow g.clear, al 0 ++ "ok")
   | _ => none
 
-def step (st : St) (ws : List String) : St × String :=
-  let r : Option (St × String) :=
-    match ws with
-    | ["new", "list"] => some (.list {} {}, "ok")
-    | ["new", "queue"] => some (.queue {}, "ok")
-    | ["new", "stack"] => some (.stack {}, "ok")
-    | ["new", "grow"] => some (.grow {}, "ok")
-    | _ =>
-      match st with
-      | .none => none
-      | .list l c => stepList l c ws
-      | .queue q => stepQueue q ws
-      | .stack q => stepStack q ws
-      | .grow g => stepGrow g ws
-  match r with
-  | some (st', out) => (st', out ++ dump st')
-  | none => (st, "bad-op")
+structure Ctx where
+  st : St := .none
+  ts : Bool := false
+  armed : Option (Nat × Bool) := none     -- `fault k` / `faultfrom k`: applies to the next windowed call
 
-def run : IO Unit := Driver.lineLoop St.none step
+def ctorOut {α : Type} (c : Ctor α) (mk : α → St) : St × String :=
+  match c.res with
+  | some x => (mk x, al c.allocs ++ "ok")
+  | none => (.none, al c.allocs ++ s!"null ENOMEM live={c.live}")
+
+def stepNew (plan : Plan) (kind : String) (ts : Bool) : Option (St × String) :=
+  match kind with
+  | "list" => some (ctorOut (QList.newF plan ts) (fun l => .list l {}))
+  | "queue" => some (ctorOut (QQueue.newF plan ts) .queue)
+  | "stack" => some (ctorOut (QStack.newF plan ts) .stack)
+  | "grow" => some (ctorOut (QGrow.newF plan ts) .grow)
+  | _ => none
+
+def step (cx : Ctx) (ws : List String) : Ctx × String :=
+  let plan := planOf cx.armed
+  let fin (ts : Bool) (r : Option (St × String)) : Ctx × String :=
+    match r with
+    | some (st', out) =>
+      -- a windowed call consumes the armed failure
+      ({ st := st', ts := ts, armed := if out.startsWith "allocs=" then none else cx.armed },
+       match st' with
+       | .none => out
+       | _ => out ++ dump ts st')
+    | none => (cx, "bad-op")
+  match ws with
+  | ["fault", k] => ({ cx with armed := some (k.toNat!, false) }, "ok")
+  | ["faultfrom", k] => ({ cx with armed := some (k.toNat!, true) }, "ok")
+  | ["end"] => ({ cx with st := .none }, "end live=0 bad=0")
+  | ["new", kind] => fin false (stepNew plan kind false)
+  | ["new", kind, opt] => let ts := (opt.toNat! &&& 1) != 0; fin ts (stepNew plan kind ts)
+  | _ =>
+    fin cx.ts (match cx.st with
+      | .none => none
+      | .list l c => stepList plan l c ws
+      | .queue q => stepQueue plan q ws
+      | .stack q => stepStack plan q ws
+      | .grow g => stepGrow plan g ws)
+
+def run : IO Unit := Driver.lineLoop ({} : Ctx) step
 
 /-! ### vector -/
 
@@ -279,6 +288,8 @@ structure VSt where
   v : Option Vec := none
   os : Nat := 0
   c : Vec.Cursor := {}
+  ts : Bool := false
+  armed : Option (Nat × Bool) := none
 
 def obsVec (v : Vec) : String :=
   "[" ++ ",".intercalate ((List.range v.size).map fun (i : Nat) =>
@@ -287,89 +298,98 @@ def obsVec (v : Vec) : String :=
     | .ok (none, _) => "null"
     | .error f => faultStr f) ++ "]"
 
-def dumpVec (v : Vec) : String :=
-  s!" sz={v.size} obs={obsVec v} | num={v.num} max={v.max} objsize={v.objsize} opt={v.options} init={v.initnum} "
+def dumpVec (ts : Bool) (v : Vec) : String :=
+  s!" sz={v.size} obs={obsVec v} | live={v.blocks ts} num={v.num} max={v.max} objsize={v.objsize} opt={v.options} init={v.initnum} "
     ++ hexList (v.slots.take v.num)
 
 def elem? (st : VSt) (w : String) : Option Bytes := do
   let d ← Hex.decode w
   if d.length = st.os then some d else none
 
-def stepVecOp (st : VSt) (v : Vec) (ws : List String) : Option (VSt × String) :=
+def stepVecOp (plan : Plan) (st : VSt) (v : Vec) (ws : List String) : Option (VSt × String) :=
   let same (out : String) := some (st, out)
   let upd (v' : Vec) (out : String) : Option (VSt × String) := some ({ st with v := some v' }, out)
-  let boolOp (r : Except Fault (BoolRes × Vec)) : Option (VSt × String) :=
+  let boolF (r : Except Fault ((BoolRes × Vec) × Nat)) : Option (VSt × String) :=
     match r with
-    | .ok (r, v') => upd v' (showBool r)
+    | .ok ((r, v'), n) => upd v' (al n ++ showBool r)
     | .error f => same (faultStr f)
-  let dataOp (r : Except Fault DataRes) : Option (VSt × String) :=
+  let boolOp (r : Except Fault (BoolRes × Vec)) : Option (VSt × String) := boolF (r.map fun x => (x, 0))
+  let dataF (r : Except Fault (DataRes × Nat)) : Option (VSt × String) :=
     match r with
-    | .ok r => same (showData r)
+    | .ok (r, n) => same (al n ++ showData r)
     | .error f => same (faultStr f)
-  let popOp (r : Except Fault (DataRes × Vec)) : Option (VSt × String) :=
+  let popF (r : Except Fault ((DataRes × Vec) × Nat)) : Option (VSt × String) :=
     match r with
-    | .ok (r, v') => upd v' (showData r)
+    | .ok ((r, v'), n) => upd v' (al n ++ showData r)
     | .error f => same (faultStr f)
   match ws with
-  | ["addfirst", h] => do let d ← elem? st h; boolOp (v.addFirst (some d))
-  | ["addlast", h] => do let d ← elem? st h; boolOp (v.addLast (some d))
-  | ["addat", i, h] => do let i ← int? i; let d ← elem? st h; boolOp (v.addAt i (some d))
-  | ["addnull", i] => do let i ← int? i; boolOp (v.addAt i none)
-  | ["getfirst", _] => dataOp v.getFirst
-  | ["getlast", _] => dataOp v.getLast
-  | ["getat", i, _] => do let i ← int? i; dataOp (v.getAt i)
+  | ["addfirst", h] => do let d ← elem? st h; boolF (v.addFirstF plan (some d))
+  | ["addlast", h] => do let d ← elem? st h; boolF (v.addLastF plan (some d))
+  | ["addat", i, h] => do let i ← int? i; let d ← elem? st h; boolF (v.addAtF plan i (some d))
+  | ["addnull", i] => do let i ← int? i; boolF (v.addAtF plan i none)
+  | ["getfirst", nm] => dataF (v.getAtF plan 0 (flag nm))
+  | ["getlast", nm] => dataF (v.getAtF plan (-1) (flag nm))
+  | ["getat", i, nm] => do let i ← int? i; dataF (v.getAtF plan i (flag nm))
   | ["setfirst", h] => do let d ← elem? st h; boolOp (v.setFirst d)
   | ["setlast", h] => do let d ← elem? st h; boolOp (v.setLast d)
   | ["setat", i, h] => do let i ← int? i; let d ← elem? st h; boolOp (v.setAt i d)
-  | ["popfirst"] => popOp v.popFirst
-  | ["poplast"] => popOp v.popLast
-  | ["popat", i] => do let i ← int? i; popOp (v.popAt i)
+  | ["popfirst"] => popF (v.popFirstF plan)
+  | ["poplast"] => popF (v.popLastF plan)
+  | ["popat", i] => do let i ← int? i; popF (v.popAtF plan i)
   | ["removefirst"] => boolOp v.removeFirst
   | ["removelast"] => boolOp v.removeLast
   | ["removeat", i] => do let i ← int? i; boolOp (v.removeAt i)
   | ["size"] => same s!"n {v.size}"
   | ["resize", m] => do
     let m ← nat? m
-    let (r, v') := v.resize m
-    upd v' (showBool (r, .ENOMEM))
+    let ((r, v'), n) := v.resizeF plan m
+    upd v' (al n ++ showBool (r, .ENOMEM))
   | ["reverse"] =>
-    match v.reverse with
-    | .ok v' => upd v' "ok"
+    match v.reverseF plan with
+    | .ok ((enomem, v'), n) => upd v' (al n ++ (if enomem then "ENOMEM" else "ok"))
     | .error f => same (faultStr f)
-  | ["clear"] => upd v.clear "ok"
+  | ["clear"] => upd v.clear (al 0 ++ "ok")
   | ["toarray"] =>
-    match v.toArray with
-    | .ok (r, n) => same s!"{showData r} size={n}"
+    match v.toArrayF plan with
+    | .ok (r, n) => same (al n ++ showArr r)
     | .error f => same (faultStr f)
   | ["walk", _] =>
     match v.walk with
     | .ok ds => same ("walk" ++ String.join (ds.map fun d => " " ++ hx d) ++ " end ENOENT")
     | .error f => same (faultStr f)
   | ["reset"] => some ({ st with c := {} }, "ok")
-  | ["next", _] =>
-    match v.getNext st.c with
-    | .ok (r, c') =>
+  | ["next", nm] =>
+    match v.getNextF plan st.c (flag nm) with
+    | .ok ((r, c'), n) =>
       some ({ st with c := c' },
-        (match r.1 with | some d => s!"data {hx d}" | none => s!"false {r.2.name}") ++ s!" idx={c'.index}")
+        al n ++ (match r.1 with | some d => s!"data {hx d}" | none => s!"false {r.2.name}") ++ s!" idx={c'.index}")
     | .error f => same (faultStr f)
   | _ => none
 
 def stepVec (st : VSt) (ws : List String) : VSt × String :=
+  let plan := planOf st.armed
   match ws with
+  | ["fault", k] => ({ st with armed := some (k.toNat!, false) }, "ok")
+  | ["faultfrom", k] => ({ st with armed := some (k.toNat!, true) }, "ok")
+  | ["end"] => ({ st with v := none }, "end live=0 bad=0")
   | ["new", m, os, opt] =>
     match nat? m, nat? os, nat? opt with
     | some m, some os, some opt =>
-      match Vec.new m os opt with
-      | some v => ({ v := some v, os := os, c := {} }, "ok" ++ dumpVec v)
-      | none => ({ v := none, os := os, c := {} }, "null EINVAL")
+      let c := Vec.newF plan m os opt
+      let ts := (opt &&& 1) != 0
+      match c.res with
+      | some v => ({ v := some v, os := os, c := {}, ts := ts }, al c.allocs ++ "ok" ++ dumpVec ts v)
+      | none => ({ v := none, os := os, c := {}, ts := ts },
+                 al c.allocs ++ s!"null {if os = 0 then "EINVAL" else "ENOMEM"} live={c.live}")
     | _, _, _ => (st, "bad-op")
   | _ =>
     match st.v with
     | none => (st, "bad-op")
     | some v =>
-      match stepVecOp st v ws with
+      match stepVecOp plan st v ws with
       | some (st', out) =>
-        (st', out ++ (match st'.v with | some v' => dumpVec v' | none => ""))
+        ({ st' with armed := if out.startsWith "allocs=" then none else st.armed },
+         out ++ (match st'.v with | some v' => dumpVec st.ts v' | none => ""))
       | none => (st, "bad-op")
 
 def runVector : IO Unit := Driver.lineLoop ({} : VSt) stepVec
